@@ -183,6 +183,7 @@ def rule_init_complete(ctx, fl):
             'is written by myth_join_counter_init_body (an object placed in recycled memory must not depend on its previous contents)')
     vi = ctx.view(NATIVE, roots=['myth_join_counter_init_body', 'myth_join_counter_wait_body', 'myth_join_counter_dec_body'], stops=('myth_queue_push', 'myth_queue_pop', 'myth_yield_ex_body', 'hr_gettime', 'fprintf', 'exit') + lib.SPIN_STOPS, flavour=fl)
     n = lib.init_covers(ctx, 'C07.4', vi, 'myth_join_counter_init_body', ['myth_join_counter_wait_body', 'myth_join_counter_dec_body'], 'join counter')
+    lib.sleep_container_init_complete(ctx, 'C07.4', fl, 'queue')
     ctx.ob('C07.4', 'fields read by the operations enumerated', n >= 5, 'read set of the operations', loc='src/myth_sync_func.h', detail=str(n))
     ctx.floor('C07.4', 7)
 
